@@ -518,7 +518,11 @@ class Engine:
         ev = self.events()
         if isinstance(ev, tuple):
             ev = [ev]
-        return [(np.asarray(g[0], dtype=float), np.asarray(g[1], dtype=bool), g[2] if len(g) > 2 else 1.0 / 16.0) for g in ev]
+        out = [(np.asarray(g[0], dtype=float).reshape(-1), np.asarray(g[1], dtype=bool).reshape(-1), g[2] if len(g) > 2 else 1.0 / 16.0) for g in ev]
+        for e, c, _ in out:
+            if e.shape != c.shape:
+                raise HarnessError("event group with %d values and %d flags" % (e.size, c.size))
+        return out
 
     def differences(self, inf, p, x0, f0):
         x = arr(x0).reshape(-1)
@@ -627,10 +631,12 @@ class Engine:
             # evaluation noise of the value at both ends: fourth differences of evaluations 1e-3 of the width apart (see numdiff)
             sigma = 0.0
             for end in (lo, hi):
-                pv = [f(end + k * 1e-3 * (hi - lo)) for k in range(-4, 5)]
+                ts = [end + (k - 3.6) * 1e-3 * (hi - lo) for k in numdiff.PROBE_OFFSETS]
+                pv = [f(t) for t in ts]
                 if all(math.isfinite(v) for v in pv):
-                    sigma = max(sigma, numdiff.noise_amplitude(pv))
+                    sigma = max(sigma, numdiff.noise_amplitude_irregular(ts, pv))
             prev = None
+            settled = 0
             gmax = 0.0
             for m in (1, 2, 4, 8, 16, 32):
                 q = 0.0
@@ -647,7 +653,9 @@ class Engine:
                 if prev is not None:
                     unc = abs(q - prev)
                     gap = abs(q - diff)
-                    if unc <= max(1e-7 * scale, 0.2 * gap):
+                    settled = settled + 1 if unc <= max(1e-7 * scale, 0.2 * gap) else 0
+                    # a smooth but sharply peaked integrand can look settled once by accident: two successive refinements must agree
+                    if settled >= 2 or (settled == 1 and unc <= 1e-7 * scale):
                         tol = rtol * scale + 3.0 * unc + 8.0 * sigma + 64.0 * EPS * max(abs(fa), abs(fb))
                         if gap > tol:
                             return {"interval": [lo, hi], "value_difference": diff, "integral_of_gradient": q, "panels": m,
@@ -853,7 +861,9 @@ def min_rel_gap(Q, pi):
     S = np.sqrt(pi)[:, None] * Q / np.sqrt(pi)[None, :]
     e = np.sort(np.linalg.eigvalsh(0.5 * (S + S.T)))
     scale = max(float(np.max(np.abs(e))), 1e-300)
-    return float(np.min(np.diff(e))) / scale
+    # the symmetrisation scales by sqrt(pi): its conditioning multiplies the error of the backward pass (gap 1.7e-3 with
+    # min/max frequency 1/1155: d/d rate off by 1.4e-6 relative against the 40-digit derivative)
+    return float(np.min(np.diff(e))) / scale * math.sqrt(float(np.min(pi)) / float(np.max(pi)))
 
 
 def like_infos(c):
@@ -1924,7 +1934,7 @@ def body_joint(c0):
     def events():
         groups = [(e + (grid or []), [True] * n + [False] * (n - 1) + [True] * len(grid or [])) for e in height_rows(dic["tree"].node_heights)]
         if model == "exponential":
-            groups.append((arr(dic["coal"].growth.tensor).reshape(-1).tolist() + [0.0], [False, True], 0.45))
+            groups += [([v, 0.0], [False, True], 0.45) for v in arr(dic["coal"].growth.tensor).reshape(-1).tolist()]  # one per sample
         return groups
 
     eng = Engine(res, dic, dic["joint"], infos, ex, events, tags)
